@@ -72,7 +72,7 @@ pub fn gen(r: &mut Rng) -> Value {
         let k = r.pick(&["k1", "k2", "a"]).to_string();
         let i = r.below(4);
         let op = match r.below(33) {
-            26 => if r.chance(1, 2) { json!({"op": "set_from_array", "slot": h, "dst": r.below(4)}) } else { json!({"op": "array_join", "slot": h, "v": r.pick(&[",", "", ", ", "-"])}) },
+            26 => if r.chance(1, 3) { json!({"op": "array_concat", "slot": h, "other": r.below(4), "dst": r.below(4)}) } else if r.chance(1, 2) { json!({"op": "set_from_array", "slot": h, "dst": r.below(4)}) } else { json!({"op": "array_join", "slot": h, "v": r.pick(&[",", "", ", ", "-"])}) },
             27 => json!({"op": "array_contains", "slot": h, "v": v}),
             28 => json!({"op": "array_is_empty", "slot": h}),
             29 => json!({"op": "map_contains_key", "slot": h, "k": k}),
@@ -299,6 +299,24 @@ pub fn run(input: &Value) -> Option<Value> {
                     }
                     Some(Coll::Arr(_)) => ("out = set skipped".to_string(), Some("skipped".to_string())),
                     _ => (format!("out = set_from_array {}", hv), err.clone()),
+                }
+            }
+            // script-implemented: a NEW array holding the items of both arrays in order; any argument that is no live array
+            // (a set, a map, a released or unknown handle) makes it report an error and create nothing
+            "array_concat" => {
+                let other = op["other"].as_u64().unwrap_or(0) as usize;
+                let dst = op["dst"].as_u64().unwrap_or(0) as usize;
+                let ov = format!("${{h{}}}", other);
+                match (model[slot].clone(), model[other].clone()) {
+                    (Some(Coll::Arr(a)), Some(Coll::Arr(b))) if dst != slot && dst != other => {
+                        let mut c = a.clone();
+                        c.extend(b.clone());
+                        let n = c.len();
+                        model[dst] = Some(Coll::Arr(c));
+                        (format!("release ${{h{}}}\nh{} = array_concat {} {}\nout = array_length ${{h{}}}", dst, dst, hv, ov, dst), Some(n.to_string()))
+                    }
+                    (Some(Coll::Arr(_)), Some(Coll::Arr(_))) => ("out = set skipped".to_string(), Some("skipped".to_string())),
+                    _ => (format!("out = array_concat {} {}", hv, ov), err.clone()),
                 }
             }
             "set_size" => match &model[slot] {
